@@ -318,7 +318,11 @@ def mon_c15(k, domain, wildcard=False):
             except Exception:
                 pass
             continue
-        if kind != "send" or who != "srv":
+        # an answer the operating system refused to send (injected sendto failure) was still produced by the server and
+        # moved its state on: it is judged, and tracked, like one that left
+        if kind == "send_error" and who == "srv" and kw.get("injected") and kw.get("data") is not None:
+            stats["c15_answers_refused_by_os"] = stats.get("c15_answers_refused_by_os", 0) + 1
+        elif kind != "send" or who != "srv":
             continue
         d = kw["data"]
         if _is_raw(d):
